@@ -221,6 +221,15 @@ func runTransformCase(r *vcommon.Report, i int, rng *rand.Rand) {
 		kind = "hide-obsolete+seqnum"
 		tr.SyntheticSeqNum = base.SeqNum(1 + rng.Uint64N(1<<40))
 	}
+	if len(t.Points) == 0 && len(tr.SyntheticSuffix) > 0 && tr.HideObsolete {
+		// A table without point keys carries the table-level property "all
+		// points obsolete" (vacuously), which the obsolete-key filter rejects
+		// with an assertion when a synthetic suffix is configured. pebble never
+		// opens a point iterator on such a table (levelIter skips files with
+		// !HasPointKeys), so this combination is outside the contract.
+		tr.HideObsolete = false
+		r.Count("pointless_suffix_tables_read_without_obsolete_filter", 1)
+	}
 	d := &caseDesc{Case: i, Kind: kind, Options: t.Opts, Points: len(t.Points), RangeDels: len(t.RangeDels), RangeKeys: len(t.RangeKeys),
 		Prefix: string(tr.SyntheticPrefix), Suffix: fmt.Sprintf("%x", tr.SyntheticSuffix), SeqNum: uint64(tr.SyntheticSeqNum), Hide: tr.HideObsolete,
 		Hint: fmt.Sprintf("VERIF_SEED=%d VERIF_ONLY_CASE=%d", vcommon.Seed(), i)}
@@ -480,11 +489,15 @@ func TestVerifC29(t *testing.T) {
 		"read through point (incl. compaction) iterators and range-del/range-key iterators with random contract-respecting ops; distinct = (kind, options, bounds, transform), empty tables are trivial")
 	r.Assume("virtual tables: a reverse step after SeekGE beyond the virtual upper bound, and a forward step after SeekLT below the virtual lower bound, are not issued (callers only seek inside the file bounds)")
 	r.Assume("hide-obsolete model = the writer's documented obsolete rule (format.go, evaluatePoint C1-C3 + forceObsolete)")
+	r.Assume("a point iterator with the obsolete-key block property filter and a synthetic suffix is never opened on a table without point keys (levelIter skips files with !HasPointKeys); there IntersectsTable fails the assertion 'block with synthetic suffix is obsolete'")
 	n := vcommon.Scale(300, 15000)
 	r.Cases(n, func(i int, rng *rand.Rand) {
 		if msg, stack := sstmodel.Guard(func() { runTransformCase(r, i, rng) }); msg != "" {
 			r.Violate("panic", "panic: "+msg, map[string]any{"case": i, "panic": msg, "stack": stack,
 				"replay_hint": fmt.Sprintf("VERIF_SEED=%d VERIF_ONLY_CASE=%d", vcommon.Seed(), i)}, map[string]any{"message": msg})
+			// A recovered panic leaks open iterators; in invariants builds their pool
+			// finalizers exit the process at the next GC. Persist the report now.
+			r.Finish(t)
 		}
 	})
 }
@@ -745,6 +758,9 @@ func TestVerifC29Copy(t *testing.T) {
 		if msg, stack := sstmodel.Guard(func() { runCopyCase(r, i, rng) }); msg != "" {
 			r.Violate("panic", "panic: "+msg, map[string]any{"case": i, "panic": msg, "stack": stack,
 				"replay_hint": fmt.Sprintf("VERIF_SEED=%d VERIF_ONLY_CASE=%d", vcommon.Seed(), i)}, map[string]any{"message": msg})
+			// A recovered panic leaks open iterators; in invariants builds their pool
+			// finalizers exit the process at the next GC. Persist the report now.
+			r.Finish(t)
 		}
 	})
 }
